@@ -165,6 +165,12 @@ def configurations(cases, quick, seed):
     for loop, algo, ne, ls, h, mx in (("on", "PPO", 2, 2, 1, 24), ("ma_on", "IPPO", 2, 2, 1, 24), ("on", "PPO", 1, 3, 2, 40)):
         out.append(dict(loop=loop, algo=algo, mem="none", k=2, num_envs=ne, learn_step=ls, batch=4, evo_steps=8, max_steps=mx, evo=False,
                         elitism=False, mutate_elite=False, hetero=h, seed=seed + 950))
+    # populations that enter with non-zero step counters (second call of the training function / resumed from checkpoints): the
+    # budget is judged on the agents' counters, not on the steps of this call
+    for loop, algo, mem, mx, pre in (("ma_on", "IPPO", "none", 64, [24, 16]), ("on", "PPO", "none", 48, [24, 8]), ("off", "DQN", "uniform", 48, [16, 24]),
+                                     ("ma_off", "MADDPG", "ma", 48, [24, 16])):
+        out.append(dict(loop=loop, algo=algo, mem=mem, k=2, num_envs=2, learn_step=2, batch=4, evo_steps=8, max_steps=mx, evo=True,
+                        elitism=True, mutate_elite=False, presteps=pre, seed=seed + 970))
     if quick:   # bandits: contexts cast to float32, batch = arms (the only shape on which learn() accepts what the loop stores)
         out.append(dict(loop="bandit", algo="NeuralTS", mem="uniform", k=2, num_envs=1, learn_step=1, batch=3, evo_steps=8, max_steps=24,
                         evo=True, elitism=True, mutate_elite=False, bandit_env="float32", mut="param", episode_steps=4, seed=seed + 901))
